@@ -54,4 +54,62 @@ theorem skel_SessionStore_makeSessionCookie_ok : skel_SessionStore_makeSessionCo
   "splitCookie",
   "return []*http.Cookie{c}, nil"] : List String) := rfl
 
+theorem flags_cookie_ok : flags_cookie = ([
+  "Duration cookie-csrf-expire = time.Duration(15) * time.Minute",
+  "Bool cookie-csrf-per-request = false",
+  "StringSlice cookie-domain = []string{}",
+  "Duration cookie-expire = time.Duration(168) * time.Hour",
+  "Bool cookie-httponly = true",
+  "String cookie-name = \"_oauth2_proxy\"",
+  "String cookie-path = \"/\"",
+  "Duration cookie-refresh = time.Duration(0)",
+  "String cookie-samesite = \"\"",
+  "String cookie-secret = \"\"",
+  "Bool cookie-secure = true"] : List String) := rfl
+
+theorem optionTags_cookie_ok : optionTags_cookie = ([
+  "cookie-csrf-expire cookie_csrf_expire Cookie.CSRFExpire time.Duration",
+  "cookie-csrf-per-request cookie_csrf_per_request Cookie.CSRFPerRequest bool",
+  "cookie-domain cookie_domains Cookie.Domains []string",
+  "cookie-expire cookie_expire Cookie.Expire time.Duration",
+  "cookie-httponly cookie_httponly Cookie.HTTPOnly bool",
+  "cookie-name cookie_name Cookie.Name string",
+  "cookie-path cookie_path Cookie.Path string",
+  "cookie-refresh cookie_refresh Cookie.Refresh time.Duration",
+  "cookie-samesite cookie_samesite Cookie.SameSite string",
+  "cookie-secret cookie_secret Cookie.Secret string",
+  "cookie-secure cookie_secure Cookie.Secure bool"] : List String) := rfl
+
+theorem cfgText_cookieDefaults_ok : cfgText_cookieDefaults = ([
+  "func cookieDefaults {",
+  "{ return Cookie{ Name: \"_oauth2_proxy\", Secret: \"\", Domains: nil, Path: \"/\", Expire: time.Duration(168) * time.Hour, Refresh: time.Duration(0), Secure: true, HTTPOnly: true, SameSite: \"\", CSRFPerRequest: false, CSRFExpire: time.Duration(15) * time.Minute, } }",
+  "func sessionOptionsDefaults {",
+  "{ return SessionOptions{ Type: CookieSessionStoreType, Cookie: CookieStoreOptions{ Minimal: false, }, } }"] : List String) := rfl
+
+theorem cfgText_loader_ok : cfgText_loader = ([
+  "func loadConfiguration {",
+  "{ if alphaConfig != \"\" { logger.Printf(\"WARNING: You are using alpha configuration. The structure in this configuration file may change without notice. You MUST remove conflicting options from your existing configuration.\") return loadAlphaOptions(config, alphaConfig, extraFlags, args) } return loadLegacyOptions(config, extraFlags, args) }",
+  "func loadLegacyOptions {",
+  "{ optionsFlagSet := options.NewLegacyFlagSet() optionsFlagSet.AddFlagSet(extraFlags) if err := optionsFlagSet.Parse(args); err != nil { return nil, fmt.Errorf(\"failed to parse flags: %v\", err) } legacyOpts := options.NewLegacyOptions() if err := options.Load(config, optionsFlagSet, legacyOpts); err != nil { return nil, fmt.Errorf(\"failed to load config: %v\", err) } opts, err := legacyOpts.ToOptions() if err != nil { return nil, fmt.Errorf(\"failed to convert config: %v\", err) } return opts, nil }",
+  "func loadAlphaOptions {",
+  "{ opts, err := loadOptions(config, extraFlags, args) if err != nil { return nil, fmt.Errorf(\"failed to load core options: %v\", err) } alphaOpts := &options.AlphaOptions{} if err := options.LoadYAML(alphaConfig, alphaOpts); err != nil { return nil, fmt.Errorf(\"failed to load alpha options: %v\", err) } alphaOpts.MergeInto(opts) return opts, nil }",
+  "func loadOptions {",
+  "{ optionsFlagSet := options.NewFlagSet() optionsFlagSet.AddFlagSet(extraFlags) if err := optionsFlagSet.Parse(args); err != nil { return nil, fmt.Errorf(\"failed to parse flags: %v\", err) } opts := options.NewOptions() if err := options.Load(config, optionsFlagSet, opts); err != nil { return nil, fmt.Errorf(\"failed to load config: %v\", err) } return opts, nil }",
+  "func Load {",
+  "{ v := viper.New() v.SetConfigFile(configFileName) v.SetConfigType(\"toml\") v.SetEnvPrefix(\"OAUTH2_PROXY\") v.AutomaticEnv() v.SetTypeByDefaultValue(true) if configFileName != \"\" { err := v.ReadInConfig() if err != nil { return fmt.Errorf(\"unable to load config file: %w\", err) } } err := registerFlags(v, \"\", flagSet, into) if err != nil { return fmt.Errorf(\"unable to register flags: %w\", err) } err = v.UnmarshalExact(into, decodeFromCfgTag) if err != nil { return fmt.Errorf(\"error unmarshalling config: %w\", err) } return nil }",
+  "func registerFlags {",
+  "{ val := reflect.ValueOf(options) var typ reflect.Type if val.Kind() == reflect.Ptr { typ = val.Elem().Type() } else { typ = val.Type() } for i := 0; i < typ.NumField(); i++ { field := typ.Field(i) fieldV := reflect.Indirect(val).Field(i) fieldName := strings.Join([]string{prefix, field.Name}, \".\") cfgName := field.Tag.Get(\"cfg\") if cfgName == \",internal\" { continue } if isUnexported(field.Name) { continue } if field.Type.Kind() == reflect.Struct { if cfgName != \",squash\" { return fmt.Errorf(\"field %q does not have required cfg tag: `,squash`\", fieldName) } err := registerFlags(v, fieldName, flagSet, fieldV.Interface()) if err != nil { return err } continue } flagName := field.Tag.Get(\"flag\") if flagName == \"\" || cfgName == \"\" { return fmt.Errorf(\"field %q does not have required tags (cfg, flag)\", fieldName) } if flagSet == nil { return fmt.Errorf(\"flagset cannot be nil\") } f := flagSet.Lookup(flagName) if f == nil { return fmt.Errorf(\"field %q does not have a registered flag\", flagName) } err := v.BindPFlag(cfgName, f) if err != nil { return fmt.Errorf(\"error binding flag for field %q: %w\", fieldName, err) } } return nil }",
+  "func LoadYAML {",
+  "{ buffer, err := loadAndParseYaml(configFileName) if err != nil { return err } if err := yaml.UnmarshalStrict(buffer, into, yaml.DisallowUnknownFields); err != nil { return fmt.Errorf(\"error unmarshalling config: %w\", err) } return nil }",
+  "func loadAndParseYaml {",
+  "{ if configFileName == \"\" { return nil, errors.New(\"no configuration file provided\") } unparsedBuffer, err := os.ReadFile(configFileName) if err != nil { return nil, fmt.Errorf(\"unable to load config file: %w\", err) } buffer, err := envsubst.Bytes(unparsedBuffer) if err != nil { return nil, fmt.Errorf(\"error in substituting env variables : %w\", err) } return buffer, nil }",
+  "func AlphaOptions.MergeInto {",
+  "{ opts.UpstreamServers = a.UpstreamConfig opts.InjectRequestHeaders = a.InjectRequestHeaders opts.InjectResponseHeaders = a.InjectResponseHeaders opts.Server = a.Server opts.MetricsServer = a.MetricsServer opts.Providers = a.Providers }",
+  "func LegacyOptions.ToOptions {",
+  "{ upstreams, err := l.LegacyUpstreams.convert() if err != nil { return nil, fmt.Errorf(\"error converting upstreams: %v\", err) } l.Options.UpstreamServers = upstreams l.Options.InjectRequestHeaders, l.Options.InjectResponseHeaders = l.LegacyHeaders.convert() l.Options.Server, l.Options.MetricsServer = l.LegacyServer.convert() l.Options.LegacyPreferEmailToUser = l.LegacyHeaders.PreferEmailToUser providers, err := l.LegacyProvider.convert() if err != nil { return nil, fmt.Errorf(\"error converting provider: %v\", err) } l.Options.Providers = providers return &l.Options, nil }",
+  "func NewLegacyOptions {",
+  "{ return &LegacyOptions{ LegacyUpstreams: LegacyUpstreams{ PassHostHeader: true, ProxyWebSockets: true, FlushInterval: DefaultUpstreamFlushInterval, Timeout: DefaultUpstreamTimeout, }, LegacyHeaders: LegacyHeaders{ PassBasicAuth: true, PassUserHeaders: true, SkipAuthStripHeaders: true, }, LegacyServer: LegacyServer{ HTTPAddress: \"127.0.0.1:4180\", HTTPSAddress: \":443\", }, LegacyProvider: LegacyProvider{ ProviderType: \"google\", AzureTenant: \"common\", ApprovalPrompt: \"force\", UserIDClaim: \"email\", OIDCEmailClaim: \"email\", OIDCGroupsClaim: \"groups\", OIDCAudienceClaims: []string{\"aud\"}, OIDCExtraAudiences: []string{}, InsecureOIDCSkipNonce: true, }, Options: *NewOptions(), } }",
+  "func NewOptions {",
+  "{ return &Options{ ProxyPrefix: \"/oauth2\", Providers: providerDefaults(), PingPath: \"/ping\", ReadyPath: \"/ready\", RealClientIPHeader: \"X-Real-IP\", ForceHTTPS: false, Cookie: cookieDefaults(), Session: sessionOptionsDefaults(), Templates: templatesDefaults(), SkipAuthPreflight: false, Logging: loggingDefaults(), } }"] : List String) := rfl
+
 end O2P.Expect.C18
